@@ -816,3 +816,92 @@ def treeflatten_memo():
     finally:
         _treeflatten_storage.value = was_flattening
 """)])
+
+# ------------------------------------------------------------------------- C10
+SEEDS["C10_function_decorator_outermost"] = ("C10", [(H, "        node.decorator_list.append(decorator)", "        node.decorator_list.insert(0, decorator)")], "C10.2")
+SEEDS["C10_class_decorator_innermost"] = ("C10", [(H, "        node.decorator_list.insert(0, decorator)", "        node.decorator_list.append(decorator)")], "C10.2")
+SEEDS["C10_copy_location_swapped"] = ("C10", [(H, """        decorator = self._typechecker.get_ast()
+        ast.copy_location(decorator, node)
+        # Place at the end""", """        decorator = self._typechecker.get_ast()
+        ast.copy_location(node, decorator)
+        # Place at the end""")], "C10.3")
+SEEDS["C10_no_generic_visit_in_class"] = ("C10", [(H, """        node.decorator_list.insert(0, decorator)
+        self._parents.append(node)
+        self.generic_visit(node)
+        self._parents.pop()
+        return node""", """        node.decorator_list.insert(0, decorator)
+        return node""")], "C10.4")
+SEEDS["C10_generic_visit_conditional"] = ("C10", [(H, """        node.decorator_list.append(decorator)
+
+        self._parents.append(node)
+        self.generic_visit(node)
+        self._parents.pop()
+        return node""", """        node.decorator_list.append(decorator)
+
+        if len(self._parents) < 2:
+            self._parents.append(node)
+            self.generic_visit(node)
+            self._parents.pop()
+        return node""")], "C10.4")
+SEEDS["C10_visit_returns_none"] = ("C10", [(H, """        self._parents.append(node)
+        self.generic_visit(node)
+        self._parents.pop()
+        return node
+
+    def visit_ClassDef""", """        self._parents.append(node)
+        self.generic_visit(node)
+        self._parents.pop()
+
+    def visit_ClassDef""")], "C10.4")
+SEEDS["C10_get_ast_cached"] = ("C10", [(H, """    def get_ast(self):""", """    @ft.lru_cache(maxsize=None)
+    def get_ast(self):""")], "C10.5")
+SEEDS["C10_import_before_future"] = ("C10", [(H, """            if isinstance(child, ast.ImportFrom) and child.module == "__future__":
+                continue
+            elif isinstance(child, ast.Expr) and isinstance(child.value, ast.Constant):""", """            if isinstance(child, ast.Expr) and isinstance(child.value, ast.Constant):""")], "C10.2")
+SEEDS["C10_import_after_all_imports"] = ("C10", [(H, """            if isinstance(child, ast.ImportFrom) and child.module == "__future__":""", """            if isinstance(child, (ast.ImportFrom, ast.Import)):""")], "C10.2")
+SEEDS["C10_skips_any_expr"] = ("C10", [(H, """            elif isinstance(child, ast.Expr) and isinstance(child.value, ast.Constant):""", """            elif isinstance(child, ast.Expr):""")], "C10.2")
+SEEDS["C10_async_visitor_added"] = ("C10", [(H, """class _JaxtypingLoader(SourceFileLoader):""", """    def visit_AsyncFunctionDef(self, node):
+        decorator = self._typechecker.get_ast()
+        ast.copy_location(decorator, node)
+        node.decorator_list.append(decorator)
+        self.generic_visit(node)
+        return node
+
+
+class _JaxtypingLoader(SourceFileLoader):""".replace("    def visit_AsyncFunctionDef", "def visit_AsyncFunctionDef", 0))], "C10.1")
+SEEDS["C10_fix_missing_locations_dropped"] = ("C10", [(H, """        ast.fix_missing_locations(tree)
+""", "")], "C10.7")
+SEEDS["C10_strips_docstring_decorators"] = ("C10", [(H, """        decorator = self._typechecker.get_ast()
+        ast.copy_location(decorator, node)
+        node.decorator_list.insert(0, decorator)""", """        decorator = self._typechecker.get_ast()
+        ast.copy_location(decorator, node)
+        node.decorator_list.insert(0, decorator)
+        node.lineno = decorator.lineno""")], "C10")
+SEEDS["C10_no_break_after_insert"] = ("C10", [(H, """                node.body.insert(i, ast.Import(names=[ast.alias("jaxtyping", None)]))
+                break""", """                node.body.insert(i, ast.Import(names=[ast.alias("jaxtyping", None)]))
+                return self._finish(node)"""), (H, """    def visit_ClassDef(self, node: ast.ClassDef):""", """    def _finish(self, node):
+        self.generic_visit(node)
+        return node
+
+    def visit_ClassDef(self, node: ast.ClassDef):""")], "C10.2")
+SEEDS["C10_template_other_key"] = ("C10", [(H, """jaxtyping._import_hook.Typechecker.lookup['{self.hash}']""", """jaxtyping._import_hook.Typechecker.lookup['{self.get_hash}']""")], "C10.6")
+SEEDS["C10_lookup_not_registered_for_none"] = ("C10", [(H, """            self.hash = "0"
+            Typechecker.lookup[self.hash] = lambda x, *_, **__: x""", """            self.hash = "0\"""")], "C10.6")
+SEEDS["C10_compile_inherits_flags"] = ("C10", [(H, """        return _call_with_frames_removed(
+            compile, tree, path, "exec", dont_inherit=True, optimize=_optimize
+        )""", """        return _call_with_frames_removed(
+            compile, tree, path, "exec", optimize=_optimize
+        )""")], "C10.7")
+SEEDS["C10_nodetransformer_base"] = ("C10", [(H, "class JaxtypingTransformer(ast.NodeVisitor):", "class JaxtypingTransformer(ast.NodeTransformer):")], "C10.1")
+TWINS["C10_twin_decorator_renamed"] = ("C10", [(H, """        decorator = self._typechecker.get_ast()
+        ast.copy_location(decorator, node)
+        node.decorator_list.insert(0, decorator)""", """        dec = self._typechecker.get_ast()
+        ast.copy_location(dec, node)
+        node.decorator_list.insert(0, dec)""")])
+TWINS["C10_twin_predicate_reordered"] = ("C10", [(H, """            if isinstance(child, ast.ImportFrom) and child.module == "__future__":
+                continue
+            elif isinstance(child, ast.Expr) and isinstance(child.value, ast.Constant):
+                continue  # module docstring""", """            if isinstance(child, ast.Expr) and isinstance(child.value, ast.Constant):
+                continue  # module docstring
+            elif child.module == "__future__" if isinstance(child, ast.ImportFrom) else False:
+                continue""")])
